@@ -13,6 +13,7 @@ FIXED = [
  ("C16","a8a95a5","terminate/recursive/*/go-http/param=generate_mock=true","oom","generate_mock=true on a recursive response type never terminated (unbounded memory)"),
  ("C20","a8a95a5","mock/recursive/*","generator-oom","same defect seen through the mock catalogue"),
  ("C18","1c3d3e7","oas/yaml11-names/json-vs-*","json-yaml-differ","format=json retyped YAML-1.1 boolean-looking names (a field named n became the property \"false\")"),
+ ("C13","be5a135","gobuild/text/header-{description,example}/{quotes,newline,crlf}/*","unparsable-go-source","a header description/example containing a quote or a line break was pasted unquoted into a Go string literal (go-http) or a line comment (go-client): protogen reported 'unparsable Go source' and nothing was emitted"),
  ("C19","727f1e6","rules/numeric-gt*","invalid-schema","gt/lt rules were published as exclusiveMinimum/exclusiveMaximum: false (bound lost, boolean form invalid in OpenAPI 3.1)"),
 ]
 
@@ -252,6 +253,10 @@ mech("generated-identifiers-collide-with-messages",
 mech("header-helper-name-collisions",
  "Go client header helper options are named after the stripped header name: the same header at service and method level, or two headers that collapse to one name, are declared twice",
  [("C13","gobuild/header-name/*/both-levels/*",["compile"],"*redeclared*"),("C13","gobuild/header-name/two-that-collapse/*",["compile"],"*redeclared*")])
+
+mech("go-client-header-option-identifiers",
+ "Go client turns header names into option function names without sanitising: a header name containing a dot yields Go source that does not parse (protogen: unparsable Go source), so go-client emits nothing for the file",
+ [("C13","gobuild/header-name/dot/*",["unparsable-go-source"],None)])
 
 mech("client-path-field-go-name",
  "Go client derives the Go field name of a path variable with its own snake-to-camel conversion instead of protoc-gen-go's: names with digits after underscores, leading/trailing/double underscores do not compile; a field named `string` resolves to the String method",
